@@ -110,8 +110,8 @@ func CheckSpecString(s string, params parser.Params, declared func(string) bool)
 		pos := 0
 		for i, tk := range rtoks {
 			txt := tk.Val
-			if tk.Typ == lexer.TTOptSeq {
-				txt = "-" + txt
+			if tk.Typ == lexer.TTOptSeq && !strings.HasPrefix(txt, "-") {
+				txt = "-" + txt // the library reports a folded sequence without its dash; with it is as faithful
 			}
 			if tk.Pos < pos || tk.Pos+len(txt) > len(s) || s[tk.Pos:tk.Pos+len(txt)] != txt {
 				return Violf("spec %q: token %d %v does not report its text/position faithfully", s, i, tk), res
@@ -133,7 +133,7 @@ func CheckSpecString(s string, params parser.Params, declared func(string) bool)
 		}
 		for i := range rtoks {
 			txt := rtoks[i].Val
-			if rtoks[i].Typ == lexer.TTOptSeq {
+			if rtoks[i].Typ == lexer.TTOptSeq && !strings.HasPrefix(txt, "-") {
 				txt = "-" + txt
 			}
 			if txt != mtoks[i].Text || rtoks[i].Pos != mtoks[i].Pos || lexTypeOf[rtoks[i].Typ] != mtoks[i].Typ {
@@ -165,6 +165,15 @@ func CheckSpecString(s string, params parser.Params, declared func(string) bool)
 
 // CheckSpecViaRun checks the public surface: Run panics with the spec error before any Action or interceptor.
 func CheckSpecViaRun(c *SpecCase) *Violation {
+	if v := checkSpecViaRun(c, false); v != nil {
+		return v
+	}
+	// the same spec on a sub command whose parent has interceptors: it is compiled when the command is reached, which must
+	// still be before any interceptor runs
+	return checkSpecViaRun(c, true)
+}
+
+func checkSpecViaRun(c *SpecCase, sub bool) *Violation {
 	s := string(c.Spec)
 	_, declared := specParams(c.Opts, c.Args)
 	_, merr := SpecCheck(s, declared)
@@ -173,37 +182,54 @@ func CheckSpecViaRun(c *SpecCase) *Violation {
 	WithSwap(&out, func() {
 		app := cli.App("app", "")
 		app.ErrorHandling = flag.ContinueOnError
-		for _, o := range c.Opts {
-			var parts []string
-			for _, n := range strings.Fields(o) {
-				parts = append(parts, strings.TrimLeft(n, "-"))
+		declare := func(cmd *cli.Cmd) {
+			for _, o := range c.Opts {
+				var parts []string
+				for _, n := range strings.Fields(o) {
+					parts = append(parts, strings.TrimLeft(n, "-"))
+				}
+				cmd.Var(cli.VarOpt{Name: strings.Join(parts, " "), Value: &BRec{}})
 			}
-			app.Var(cli.VarOpt{Name: strings.Join(parts, " "), Value: &BRec{}})
+			for _, a := range c.Args {
+				cmd.Var(cli.VarArg{Name: a, Value: &Rec{}})
+			}
+			cmd.Spec = s
+			cmd.Before = func() { log = append(log, "before") }
+			cmd.After = func() { log = append(log, "after") }
+			cmd.Action = func() { log = append(log, "action") }
 		}
-		for _, a := range c.Args {
-			app.Var(cli.VarArg{Name: a, Value: &Rec{}})
+		if sub {
+			app.Before = func() { log = append(log, "parent-before") }
+			app.After = func() { log = append(log, "parent-after") }
+			app.Command("sub", "", declare)
+			_ = app.Run([]string{"app", "sub"})
+			return
 		}
-		app.Spec = s
-		app.Before = func() { log = append(log, "before") }
-		app.After = func() { log = append(log, "after") }
-		app.Action = func() { log = append(log, "action") }
+		declare(app.Cmd)
 		_ = app.Run([]string{"app"})
 	})
-	_, isSpecErr := out.PanicVal.(*lexer.ParseError)
+	where := "Run"
+	if sub {
+		where = "Run (spec of a sub command, parent with interceptors)"
+	}
+	pe, isSpecErr := out.PanicVal.(*lexer.ParseError)
 	if s == "" {
 		return nil // an empty Spec means "implicit spec" (C16), not a spec string
 	}
 	if merr != nil {
 		if !isSpecErr {
-			return Violf("Run with the ill-formed spec %q did not panic with a spec error (panic=%q, hooks=%v)", s, out.Panic, log)
+			return Violf("%s with the ill-formed spec %q did not panic with a spec error (panic=%q, hooks=%v)", where, s, out.Panic, log)
 		}
 		if len(log) != 0 {
-			return Violf("Run with the ill-formed spec %q ran %v before panicking", s, log)
+			return Violf("%s with the ill-formed spec %q ran %v before panicking", where, s, log)
+		}
+		if pe.Pos < 0 || pe.Pos > len(s) || !merr.Admits(pe.Pos) {
+			return Violf("%s with the ill-formed spec %q panicked with error position %d, which is not at an offending token (first one: [%d,%d] %s; others: %v)", where, s, pe.Pos, merr.Lo, merr.Hi, merr.Msg, merr.Also)
 		}
 		return nil
 	}
 	if out.Panic != "" {
-		return Violf("Run with the well-formed spec %q panicked: %s", s, out.Panic)
+		return Violf("%s with the well-formed spec %q panicked: %s", where, s, out.Panic)
 	}
 	return nil
 }
